@@ -143,14 +143,47 @@ def random_sched(rng, cmds):
     return out
 
 
+# consumer pacings (all independent of what the encoder does, except 'onvalid', which stalls exactly on the cycles in
+# which a character is offered): name -> rough percentage of ready cycles (only used for the cycle budget)
+PACINGS = [('toggle', 0), ('toggle', 1), ('onvalid', 1), ('1ink', 2, 0), ('1ink', 3, 1), ('onvalid', 2), ('rand', 50), ('1ink', 4, 2),
+           ('rand', 30), ('stall', 7), ('1ink', 5, 3), ('rand', 70), ('onvalid', 5), ('stall', 19), ('1ink', 3, 0), ('1ink', 2, 1),
+           ('rand', 100), ('rand', 10), ('rand', 90), ('1ink', 4, 0), ('1ink', 5, 0)]
+
+
+def pace_percent(pat):
+    return {'toggle': 50, '1ink': 100 // pat[1] if pat[0] == '1ink' else 0, 'onvalid': 30, 'stall': 25, 'rand': pat[1]}[pat[0]] or 10
+
+
+def ready_source(pat, rng, valid_wire):
+    """a function () -> ready for the next cycle, called once per cycle."""
+    st = {'t': 0, 'held': 0}
+    def nxt():
+        t = st['t']; st['t'] += 1
+        st['held'] = st['held'] + 1 if valid_wire.get() else 0
+        if pat[0] == 'rand': return 1 if rng.randint(1, 100) <= pat[1] else 0
+        if pat[0] == 'toggle': return (t + pat[1]) % 2
+        if pat[0] == '1ink': return 1 if (t + pat[2]) % pat[1] == 0 else 0
+        if pat[0] == 'stall': return 0 if (t % (pat[1] + 3)) < pat[1] else 1           # long stalls, 3 ready cycles in between
+        if pat[0] == 'onvalid': return 0 if 0 < st['held'] <= pat[1] else 1            # drop ready right when a character is offered
+        raise ValueError(pat)
+    return nxt
+
+
+def with_pacing(cfg, pat):
+    cfg = dict(cfg, pattern=list(pat)); cfg['pace'] = pace_percent(pat)
+    return cfg
+
+
 def random_resp_cfg(rng, idx):
     wvin = rng.choice([32, 32, 8, 16, 40, 4, 1])
     reqs = []
     for _ in range(rng.randint(1, 3)):
         v = rng.choice([0, (1 << wvin) - 1, rng.randint(0, (1 << wvin) - 1), 0xA5F09C36E7 & ((1 << wvin) - 1)])
         reqs.append((v, rng.choice([1, 2, 8, rng.randint(1, 12)])))
-    return {'wvin': wvin, 'wvalid': rng.choice([1, 1, 2]), 'wv': rng.choice([8, 8, 7, 9]), 'requests': reqs,
-            'pace': rng.choice([100, 90, 50, 20, 10]), 'junk': rng.random() < .7}
+    if idx % 3 == 0 and all(k < 3 for _, k in reqs):      # make sure multi-digit responses meet every pacing
+        reqs[0] = (reqs[0][0], rng.choice([4, 8, 6]))
+    return with_pacing({'wvin': wvin, 'wvalid': rng.choice([1, 1, 2]), 'wv': rng.choice([8, 8, 7, 9]), 'requests': reqs,
+                        'junk': rng.random() < .7}, PACINGS[idx % len(PACINGS)])
 
 
 def structured_req_cases(rng, budget):
@@ -184,14 +217,20 @@ def structured_req_cases(rng, budget):
 
 
 def structured_resp_cases(rng, budget):
+    """every pacing pattern on multi-digit values first (these expose pacing-dependent defects), then every k / nibble value."""
+    base = {'wvin': 32, 'wvalid': 1, 'wv': 8, 'junk': False}
     out = []
+    for pat in PACINGS:
+        for v, k in ((0x89ABCDEF, 8), (0x01234567, 8), (0xA5, 2), (0xF, 1), (0x1234, 5)):
+            out.append(with_pacing(dict(base, requests=[(v, k)]), pat))
+    rest = []
     for k in range(1, 13):
         for v in (0, 0xFFFFFFFF, 0x01234567, 0x89ABCDEF, 0xA, 0x9, 0x10):
-            out.append({'wvin': 32, 'wvalid': 1, 'wv': 8, 'requests': [(v, k)], 'pace': rng.choice([100, 50, 20]), 'junk': True})
+            rest.append(with_pacing(dict(base, requests=[(v, k)], junk=True), rng.choice(PACINGS)))
     for d in range(16):
-        out.append({'wvin': 4, 'wvalid': 1, 'wv': 8, 'requests': [(d, 1), (d, 2)], 'pace': rng.choice([100, 30]), 'junk': True})
-    rng.shuffle(out)
-    out = out[:budget]
+        rest.append(with_pacing(dict(base, wvin=4, requests=[(d, 1), (d, 2)], junk=True), rng.choice(PACINGS)))
+    rng.shuffle(rest)
+    out = (out + rest)[:max(budget, len(out))]
     i = 0
     while len(out) < budget // 2:
         out.append(random_resp_cfg(rng, i)); i += 1
@@ -280,15 +319,19 @@ def run_request(py4hw, W, sched, want_dump=False):
     chars = [ch for _, ch in sched]
     nk = sum(1 for e in py_expected_from_chars(chars) if e == 4)
     cap = 60 + sum(len(g) for g, _ in sched) + 8 * len(sched) + 2 * nk
-    trace, steps, full, extra = [], [], [], 0
+    trace, steps, full, extra, raised = [], [], [], 0, None
     while len(trace) < cap:
         if not p: v, ch = 0, 0
         elif p[0][0]: v, ch = 0, p[0][0][0]
         else: v, ch = 1, p[0][1]
         rdy = w['ready'].get()
         w['valid'].put(v); w['c'].put(ch)
-        with quiet():
-            sim.clk(1)
+        try:
+            with quiet():
+                sim.clk(1)
+        except Exception as ex:                       # an exception inside clock() on a legal run is a failing input
+            raised = '%s: %s' % (type(ex).__name__, ex); del wire_base(py4hw).prepared[:]
+            trace.append([w[n].get() for n in REQ_WIRES]); break
         if dp is not None:
             steps.append(([(dp.wid[id(w['valid'])], v), (dp.wid[id(w['c'])], ch)], 1)); full.append(dp.values())
         if p:
@@ -300,7 +343,7 @@ def run_request(py4hw, W, sched, want_dump=False):
             if extra >= 4: break
     events = []
     for row in trace: events += ev_of_row(row)
-    return {'trace': trace, 'events': events, 'left': len(p), 'final_state': blk.state, 'final_temp': blk.temp, 'capped': len(trace) >= cap,
+    return {'trace': trace, 'events': events, 'left': len(p), 'final_state': blk.state, 'final_temp': blk.temp, 'capped': len(trace) >= cap, 'raised': raised,
             'dump': dp, 'steps': steps, 'init': init, 'full_trace': full}
 
 
@@ -321,6 +364,7 @@ def py_expected_from_chars(chars):
 
 def judge_request(run):
     exp = py_expected(run['cmds'], run['W'])
+    if run.get('raised'): return 'clock() raised %s in cycle %d of a legal run' % (run['raised'], len(run['trace']) - 1)
     if run['capped']: return 'the decoder did not return to its waiting state with all characters consumed within the cycle budget'
     if [list(e) for e in run['events']] != [list(e) for e in exp]: return 'event sequence differs from the expected one'
     prev = [0] * 9
@@ -353,6 +397,7 @@ def coq_req_case(run):
 
 
 def run_response(py4hw, cfg, rng, want_dump=False):
+    Wire = wire_base(py4hw)
     hw, w, blk = build_response(py4hw, cfg['wvin'], cfg['wvalid'], cfg['wv'])
     dp = None
     if want_dump:
@@ -362,36 +407,44 @@ def run_response(py4hw, cfg, rng, want_dump=False):
         sim = dp.sim if dp is not None else hw.getSimulator()
     init = dp.values() if dp is not None else None
     ins, trace, xfers, steps, full = [], [], [], [], []
-    capped = False
+    capped, raised = False, [None]
     mvin = (1 << cfg['wvin']) - 1
     def cycle(vin, size, start, ready):
         if w['valid'].get() and ready: xfers.append(w['v'].get())
         for n, x in (('vin', vin), ('size', size), ('start_resp', start), ('ready', ready)): w[n].put(x)
-        with quiet():
-            sim.clk(1)
-        ins.append([vin, size, start, ready]); trace.append([w['valid'].get(), w['v'].get()])
+        ins.append([vin, size, start, ready])
+        try:
+            with quiet():
+                sim.clk(1)
+        except Exception as ex:                       # an exception inside clock() on a legal run is a failing input
+            raised[0] = '%s: %s' % (type(ex).__name__, ex); del Wire.prepared[:]
+            return False
+        trace.append([w['valid'].get(), w['v'].get()])
         if dp is not None:
             steps.append(([(dp.wid[id(w[n])], x) for n, x in (('vin', vin), ('size', size), ('start_resp', start), ('ready', ready))], 1))
             full.append(dp.values())
-    rdy = lambda: 1 if rng.randint(1, 100) <= cfg['pace'] else 0
+        return True
+    rdy = ready_source(tuple(cfg.get('pattern') or ('rand', cfg['pace'])), rng, w['valid'])
+    ok = True
     for value, k in cfg['requests']:
         for _ in range(rng.randint(0, 3)):
-            cycle(rng.randint(0, mvin), rng.randint(0, 255), 0, rdy())
-        cycle(value, k, 1, rdy())
+            ok = ok and cycle(rng.randint(0, mvin), rng.randint(0, 255), 0, rdy())
+        ok = ok and cycle(value, k, 1, rdy())
         n = 0
-        while blk.state != 0:
+        while ok and blk.state != 0:
             j = cfg['junk']
-            cycle(rng.randint(0, mvin) if j else value, rng.randint(0, 255) if j else k, rng.randint(0, 1) if j else 0, rdy())
+            ok = cycle(rng.randint(0, mvin) if j else value, rng.randint(0, 255) if j else k, rng.randint(0, 1) if j else 0, rdy())
             n += 1
-            if n > 400 + 40 * k * (100 // cfg['pace'] + 1): capped = True; break
-        if capped: break
+            if n > 400 + 40 * k * (100 // max(cfg['pace'], 1) + 1): capped = True; break
+        if capped or not ok: break
     for _ in range(3):
-        cycle(rng.randint(0, mvin), rng.randint(0, 255), 0, rdy())
-    return {'cfg': cfg, 'ins': ins, 'trace': trace, 'xfers': xfers, 'capped': capped, 'final_state': blk.state,
+        if ok and not capped: ok = cycle(rng.randint(0, mvin), rng.randint(0, 255), 0, rdy())
+    return {'cfg': cfg, 'ins': ins, 'trace': trace, 'xfers': xfers, 'capped': capped, 'raised': raised[0], 'final_state': blk.state,
             'dump': dp, 'steps': steps, 'init': init, 'full_trace': full}
 
 
 def judge_response(run):
+    if run.get('raised'): return 'clock() raised %s in cycle %d of a legal run (size >= 1)' % (run['raised'], len(run['ins']) - 1)
     if run['capped']: return 'the encoder did not return to idle within the cycle budget'
     if run['xfers'] != py_responses(run['cfg']['requests']): return 'transferred characters differ from "=" + hex digits + "!"'
     if run['final_state'] != 0 or run['trace'][-1][0] != 0: return 'the encoder is not idle (state 0, valid low) at the end'
@@ -402,7 +455,8 @@ def resp_replay(run, why):
     return {'what': 'CMDResponse: ' + why, 'block': 'CMDResponse', 'kind_of_case': 'response',
             'requests(value,nibbles)': [list(x) for x in run['cfg']['requests']],
             'expected_chars': ''.join(chr(c) for c in py_responses(run['cfg']['requests'])),
-            'observed_chars': ''.join(chr(c) if 32 <= c < 127 else '\\x%02x' % c for c in run['xfers']), 'final_state': run['final_state'],
+            'observed_chars': ''.join(chr(c) if 32 <= c < 127 else '\\x%02x' % c for c in run['xfers']), 'raised': run.get('raised'),
+            'consumer_pacing': run['cfg'].get('pattern'), 'final_state': run['final_state'],
             'cfg': run['cfg'], 'inputs(vin,size,start_resp,ready)': run['ins']}
 
 
@@ -468,7 +522,7 @@ def shrink_request(py4hw, run):
 
 def shrink_response(py4hw, run):
     for v, k in run['cfg']['requests']:
-        cfg = dict(run['cfg'], requests=[(v, k)], pace=100, junk=False)
+        cfg = dict(run['cfg'], requests=[(v, k)], junk=False)
         r = run_response(py4hw, cfg, random.Random(1)); r['idx'] = -1
         bad = judge_response(r)
         if bad: return r, bad
@@ -489,15 +543,18 @@ def replay(py4hw, rp):
         hw, w, blk = build_response(py4hw, cfg['wvin'], cfg['wvalid'], cfg['wv'])
         with quiet():
             sim = hw.getSimulator()
-        xf = []
+        xf = []; raised = None
         for vin, size, start, ready in rp['inputs(vin,size,start_resp,ready)']:
             if w['valid'].get() and ready: xf.append(w['v'].get())
             for n, x in (('vin', vin), ('size', size), ('start_resp', start), ('ready', ready)): w[n].put(x)
-            with quiet():
-                sim.clk(1)
+            try:
+                with quiet():
+                    sim.clk(1)
+            except Exception as ex:
+                raised = '%s: %s' % (type(ex).__name__, ex); del wire_base(py4hw).prepared[:]; break
         exp = py_responses(cfg['requests'])
-        print('expected :', ''.join(map(chr, exp))); print('observed :', ''.join(map(chr, xf)))
-        bad = xf != exp
+        print('expected :', ''.join(map(chr, exp))); print('observed :', ''.join(map(chr, xf)) + (('  then clock() raised ' + raised) if raised else ''))
+        bad = xf != exp or raised is not None
         print('verdict  :', 'differs' if bad else 'agrees with the specification now')
         return 1 if bad else 0
     import json
